@@ -35,6 +35,18 @@ Two independent definitions:
                (`pop` consumes, `get` does not), `super()` = next class of the instance's MRO that
                defines `__init__`, `object.__init__` takes no keyword.
 
+Also here, because the theorems are stated with them: `WfProg` (decidable hypothesis of `C13_exact`:
+acyclic, every body that takes `**kwargs` is pops-then-one-forwarding-call, no `get`, no popped name
+hard-coded, hard-coded positionals fit the callee in every MRO context, a class without own `__init__`
+inherits one whose `super()` call hard-codes no more positionals than it has parameters), `noPopClash`
+(decidable: a popped name defined elsewhere has the same default — then the resolver never raises),
+`Prog.defs` / `sameSig` (where an offered parameter can come from).
+
+Outside the model: `*args` forwarding, attribute-then-use (`self._kwargs = kwargs`), method overriding,
+the stale `current_mro` index after a first `super()` call in the same body (the generator emits at
+most one `super()` call per body, as its last forwarding call), the assumptions/stubs fallback after
+`Out.crash` (the model propagates `crash` to the query; the harness then only runs the oracle).
+
 Both recurse along the call graph; the recursion of the code is unbounded, the model takes a
 structural fuel and `C13_fuel_suffices` proves that `bound P` is enough on acyclic programs.
 Imports nothing beyond core Lean.
